@@ -98,6 +98,28 @@ func (e *netEnv) listen(id uint16, drain bool) {
 	}
 }
 
+// listenAt starts the draining service of a node at a given address (a port reserved earlier); false when the port is gone.
+func (e *netEnv) listenAt(id uint16, addr string) (ok bool) {
+	defer func() {
+		if recover() != nil {
+			ok = false
+		}
+	}()
+	n := e.nodes[id]
+	l := comm.Listen(addr, e.server.Cert, e.server.Key)
+	n.addr = l.Addr().String()
+	in, stop := comm.ServiceConnections(l, e.p2id, common.Nolog{})
+	n.in, n.stop, n.drain = in, stop, true
+	go func() {
+		for m := range in {
+			n.mu.Lock()
+			n.recv = append(n.recv, m)
+			n.mu.Unlock()
+		}
+	}()
+	return true
+}
+
 func (n *netNode) received() []comm.InMsg {
 	n.mu.Lock()
 	defer n.mu.Unlock()
